@@ -120,7 +120,7 @@ def r20_2(ctx: Ctx, entry, pr, prev):
             atoms = full(_path_origin(ctx, fn, patharg))
             from_temp = bool(atoms & {"call:mkstemp", "call:mkdtemp"})
             from_user_output = fn is entry and "param:output" in atoms
-            from_outputdir = "field:outputDir" in atoms or "call:_get_output_path" in atoms
+            from_outputdir = "field:outputDir" in atoms
             ok = from_temp or from_user_output or from_outputdir
             detail = ("path derives from " + ", ".join(x for x, f_ in (("a tempfile result", from_temp),
                       ("the user's --output", from_user_output), ("project.outputDir (R20.3 ties it to the temp dir)", from_outputdir)) if f_)
